@@ -231,7 +231,7 @@ def run(ck, prog, tier, load):
         if kind in ("Text", "Binary"):
             ck.ob("C14-d.data-inside-fragmented", key, fl.get("CONTINUATION") is False, decode, bb,
                   "a complete %s frame is delivered only when no fragmented message is in progress (CONTINUATION tested false; established: %s)" % (kind, fl.get("CONTINUATION")))
-    ck.anchor("C14-d", n_frames, 10, "frame-producing returns in Codec::decode")
+    ck.anchor("C14-d", n_frames, 5, "frame-producing returns in Codec::decode")
 
     def flag_effects(b, flag, rule):
         n = 0
@@ -247,9 +247,9 @@ def run(ck, prog, tier, load):
         return n
 
     n1 = flag_effects(decode, "CONTINUATION", "C14-d.flag-effect")
-    ck.anchor("C14-d", n1, 3, "insert/remove of Flags::CONTINUATION in decode")
+    ck.anchor("C14-d", n1, 2, "insert/remove of Flags::CONTINUATION in decode")
     n2 = flag_effects(encode, "W_CONTINUATION", "C14-d.flag-effect")
-    ck.anchor("C14-d", n2, 3, "insert/remove of Flags::W_CONTINUATION in encode")
+    ck.anchor("C14-d", n2, 2, "insert/remove of Flags::W_CONTINUATION in encode")
     # first-fragment arms set the flag before delivering; last arm clears it
     for bb, e in decode.ret_exprs():
         fk = frame_kind(e)
@@ -279,7 +279,7 @@ def run(ck, prog, tier, load):
             n_w += 1
             ok = any(is_call(encode.term(d), r"codec::_::insert$") for d in encode.dominators(bb))
             ck.ob("C14-d.encode-first-guarded", "%s|fin=0" % opn, ok, encode, bb, "first fragment written only after W_CONTINUATION was found clear and set")
-    ck.anchor("C14-d", n_w, 4, "fragment writes in Codec::encode")
+    ck.anchor("C14-d", n_w, 2, "fragment writes in Codec::encode")
 
     # ---- (e) handshake --------------------------------------------------------
     vh = prog.one(r"^actix_http::ws::verify_handshake$")
